@@ -71,16 +71,22 @@ class Check(PropertyCheck):
     level_note = ("POSIX shell semantics are modelled for the emitted constructs only and validated against dash and bash, not "
                   "proved of any shell; NUL cannot be passed in argv and is excluded from generated fields; httpie is not "
                   "installed: its reading of the argv is taken as [http, METHOD, URL, 'name: value'...]; pretty_url/pretty_host/"
-                  "get_text and content decoding are library answers; body_exact is proved only as body_exact_partial with "
-                  "counterexamples (F-C48b trailing newline, F-C48d printf \\x under dash), F-C48c ('@' prefix) is a curl-"
-                  "semantics finding; raw_parses_back is proved for the non-chunked, trailer-free assemble path.")
+                  "get_text and content decoding are library answers. 'Exactly that method' is read as Request.method (the data "
+                  "model upper-cases the wire bytes), 'that URL' as pretty_url or url (they differ only when the Host header has "
+                  "no port and the connection a non-default one), an Accept-Encoding header is represented by --compressed "
+                  "(deliberate substitution by the exporter). body_exact is proved only as body_exact_partial with "
+                  "counterexamples (F-C48b trailing newline under $(...), F-C48d printf \\x under dash); F-C48c ('@' prefix) is a "
+                  "curl-semantics finding (the argv is exact). `$(printf ...)` also runs the shell's printf: 'executes only curl' "
+                  "is read as 'no command other than curl and the exporter's own fixed printf'. raw_parses_back is proved for "
+                  "the non-chunked, trailer-free assemble path against a minimal reader; chunked re-framing is tied by the "
+                  "differential run and the Python reference parser only.")
     technique = "Lean 4 proof (induction over arguments/bytes) + execution of the real exports under real shells with stub programs"
     rule = ("requests with ~60% plain and ~40% hostile material (shell metacharacters, quotes, control characters, %, "
             "backslashes, non-UTF-8 bytes; never NUL) in method, host, path, header names and values; bodies: none, text soups, "
             "binary, non-UTF-8 charsets; export_preserve_original_ip on/off with several peer addresses. distinct = distinct "
             "request; non-trivial = at least one field contains a character outside shlex's safe set.")
     budget = {"quick": 500, "thorough": 12000}
-    time_budget = {"quick": 35, "thorough": 600}
+    time_budget = {"quick": 25, "thorough": 500}
     fingerprints = ["mitmproxy.addons.export:curl_command", "mitmproxy.addons.export:httpie_command",
                     "mitmproxy.addons.export:request_content_for_console", "mitmproxy.addons.export:pop_headers",
                     "mitmproxy.addons.export:cleanup_request", "mitmproxy.addons.export:raw_request",
